@@ -63,6 +63,13 @@ void b64encode(const void * data, size_t len, Literal& b64)
   }
 }
 
+/* the 6 bits of the character at position i; a truncated input is read as if it
+ * went on with 'A' (0): nothing is read beyond the len bytes given */
+static inline int b64at(const unsigned char * p, size_t len, size_t i)
+{
+  return (i < len ? B64index[p[i]] : 0);
+}
+
 void b64decode(const void * b64, size_t len, TabChar& data)
 {
   if (len == 0)
@@ -71,7 +78,7 @@ void b64decode(const void * b64, size_t len, TabChar& data)
   const unsigned char *p = (const unsigned char*) b64;
   size_t j = 0,
       pad1 = len % 4 || p[len - 1] == '=',
-      pad2 = pad1 && (len % 4 > 2 || p[len - 2] != '=');
+      pad2 = pad1 && (len % 4 > 2 || (len > 1 && p[len - 2] != '='));
   const size_t last = (len - pad1) / 4 << 2;
   size_t datalen = last / 4 * 3 + pad1 + pad2;
   data.assign(datalen, '\0');
@@ -85,11 +92,11 @@ void b64decode(const void * b64, size_t len, TabChar& data)
   }
   if (pad1)
   {
-    int n = B64index[p[last]] << 18 | B64index[p[last + 1]] << 12;
+    int n = b64at(p, len, last) << 18 | b64at(p, len, last + 1) << 12;
     data[j++] = n >> 16 & 0xFF;
     if (pad2)
     {
-      n |= B64index[p[last + 2]] << 6;
+      n |= b64at(p, len, last + 2) << 6;
       data[j++] = n >> 8 & 0xFF;
     }
   }
